@@ -362,4 +362,16 @@ type Injector struct {
 	Vars          []*InjectorParam
 	Stmts         []InjectorStmt
 	IsReturnError bool
+	// errGroupVar is the name the allocator gave the errgroup variable of this injector
+	// ("eg" unless that name is taken).
+	errGroupVar string
+}
+
+// errGroupName returns the identifier of the injector's errgroup variable.
+func (i *Injector) errGroupName() string {
+	if i == nil || i.errGroupVar == "" {
+		return "eg"
+	}
+
+	return i.errGroupVar
 }
